@@ -45,11 +45,15 @@ func (s *subscriptionsState) mergeSubscriptions(subscriptions []*api.Subscriptio
 }
 
 func (s *subscriptionsState) dump(event *api.StateBroadcastEvent) {
-	subscriptions := s.All()
-	for _, subscription := range subscriptions {
-		subscription := subscription // the event keeps a pointer to each entry
-		event.Subscriptions = append(event.Subscriptions, &subscription)
-	}
+	s.mu.Lock()
+	defer s.mu.Unlock()
+	// removed entries are part of the state: a peer that missed a removal needs them
+	s.subscriptions.Iterate(func(b []byte) {
+		local := &api.SubscriptionList{}
+		if proto.Unmarshal(b, local) == nil {
+			event.Subscriptions = append(event.Subscriptions, local.Subscriptions...)
+		}
+	})
 }
 
 func (s *subscriptionsState) Create(sessionID string, pattern []byte, qos int32) error {
